@@ -534,3 +534,10 @@ fn insert_sorted_node(
         Err(ins_index) => nodes.insert(ins_index, (node_dist, node, pinged)),
     };
 }
+
+// Verification harnesses (compiled only by `cargo kani`; inert otherwise).
+#[cfg(kani)]
+#[allow(dead_code, unused_imports)]
+mod verif {
+    include!(concat!(env!("BTDHT_VERIF"), "/harness/lookup.rs"));
+}
